@@ -774,22 +774,28 @@ def get_description(tokens: list[str]) -> str:
     return tokens[0]
 
 
-def _split_interpreter_options(tokens: list[str]) -> tuple[list[str], list[str]]:
-    """Split into the interpreter's own options and the program (script and its arguments).
+def _split_interpreter_options(
+    tokens: list[str],
+) -> tuple[list[str], str | None, list[str]]:
+    """Split into the interpreter's own option words, the -m module, and the program.
 
-    Options end at the first word that is not an option; -c, -m and - end them too
-    (with their value). Everything after belongs to the program, whatever it looks like.
+    Options end at the first word that is not an option; -c, -m and - end them too.
+    The value of an option (-W x, -X x) is not an option word. Everything after
+    belongs to the program (script and its arguments), whatever it looks like.
     """
     opts: list[str] = []
     i = 1
     while i < len(tokens):
         token = tokens[i]
         if token == "-":
-            return opts + ["-"], tokens[i + 1 :]
-        if token in ("-c", "-m"):
-            return opts + tokens[i : i + 2], tokens[i + 2 :]
+            return opts + ["-"], None, tokens[i + 1 :]
+        if token == "-c":
+            return opts + ["-c"], None, tokens[i + 2 :]
+        if token == "-m":
+            module = tokens[i + 1] if i + 1 < len(tokens) else None
+            return opts + ["-m"], module, tokens[i + 2 :]
         if token in FLAGS_WITH_ARG:
-            opts.extend(tokens[i : i + 2])
+            opts.append(token)
             i += 2
             continue
         if token.startswith("-"):
@@ -797,7 +803,7 @@ def _split_interpreter_options(tokens: list[str]) -> tuple[list[str], list[str]]
             i += 1
             continue
         break
-    return opts, tokens[i:]
+    return opts, None, tokens[i:]
 
 
 def classify(ctx: HandlerContext) -> Classification:
@@ -823,7 +829,7 @@ def classify(ctx: HandlerContext) -> Classification:
         return Classification("ask", description=f"{tokens[0]} interactive")
 
     # Only the interpreter's own options count: "python x.py --version" runs x.py
-    opts, _program = _split_interpreter_options(tokens)
+    opts, module, _program = _split_interpreter_options(tokens)
 
     # Check for safe flags first
     for token in opts:
@@ -836,15 +842,12 @@ def classify(ctx: HandlerContext) -> Classification:
 
     # Check for -m (module) - could run arbitrary code
     if "-m" in opts:
-        idx = opts.index("-m")
-        if idx + 1 < len(opts):
-            module = opts[idx + 1]
-            # Only calendar is truly inert (just prints output, no I/O or code exec)
-            # - timeit: executes its argument as code
-            # - json.tool: reads files
-            # - pydoc: imports modules (executes top-level code)
-            if module == "calendar":
-                return Classification("allow", description=desc)
+        # Only calendar is truly inert (just prints output, no I/O or code exec)
+        # - timeit: executes its argument as code
+        # - json.tool: reads files
+        # - pydoc: imports modules (executes top-level code)
+        if module == "calendar":
+            return Classification("allow", description=desc)
         return Classification("ask", description=desc)
 
     # Check for -i (interactive after script) and - (program read from stdin)
